@@ -132,8 +132,10 @@ def paths_under(ff: FuncFacts, val: Dict[str, bool], start: Optional[Node] = Non
                     v[f'{t} is None'] = True
                     if isinstance(a.targets[0], ast.Name):
                         v[t] = False
-                elif isinstance(a.value, (ast.Call, ast.Tuple, ast.List, ast.Dict, ast.Set, ast.JoinedStr, ast.Lambda, ast.ListComp, ast.DictComp, ast.SetComp)) or (
-                        isinstance(a.value, ast.Constant) and a.value.value is not None):
+                elif isinstance(a.value, (ast.Tuple, ast.List, ast.Dict, ast.Set, ast.JoinedStr, ast.Lambda, ast.ListComp, ast.DictComp, ast.SetComp)) or (
+                        isinstance(a.value, ast.Constant) and a.value.value is not None) or (
+                        # a call yields a non-None value only when it is visibly a construction: ``ClassName(...)`` / a builtin container
+                        isinstance(a.value, ast.Call) and (norm(a.value.func).split('.')[-1][:1].isupper() or norm(a.value.func) in ('dict', 'list', 'set', 'tuple', 'frozenset', 'str', 'int', 'bool'))):
                     v[f'{t} is None'] = False
         succs = [(t, l) for t, l in n.succ if l not in ('exc', 'uncaught', 'handler')]
         if n.kind == 'test':
